@@ -513,8 +513,11 @@ func genCase13(c *Chooser) C13Case {
 	// structurally valid hunks with arbitrary paths, context and metadata
 	if c.Chance(1, 6) {
 		text := handWritten(c)
-		if c.Chance(1, 2) {
+		switch c.Int(4) {
+		case 0, 1:
 			text = handWrittenMerge(c)
+		case 2:
+			text = handWrittenPatch(c)
 		}
 		cs.Disk = append(cs.Disk, DiskFault{After: np - 1, Kind: "overwrite", File: "p", Text: text})
 	}
@@ -788,7 +791,11 @@ func handWritten(c *Chooser) string {
 			sb.WriteString([]string{"[\n", "  " + vals[c.Int(len(vals))] + "\n"}[c.Int(2)])
 		}
 		for i := 0; i < c.Int(3); i++ {
-			sb.WriteString("- " + vals[c.Int(len(vals))] + "\n")
+			if c.Chance(1, 8) {
+				sb.WriteString("-\n") // a value lost in transit: the line is still there
+			} else {
+				sb.WriteString("- " + vals[c.Int(len(vals))] + "\n")
+			}
 		}
 		for i := 0; i < c.Int(3); i++ {
 			if c.Chance(1, 8) {
@@ -802,4 +809,44 @@ func handWritten(c *Chooser) string {
 		}
 	}
 	return sb.String()
+}
+
+// handWrittenPatch writes a JSON Patch document the way a person or a foreign
+// tool might: the operations jd understands in jd's order, mixed with elements
+// that are incomplete, of the wrong type, or use pointer tokens at the edges.
+func handWrittenPatch(c *Chooser) string {
+	paths := []string{`"/a"`, `"/a/0"`, `"/a/1"`, `"/a/-"`, `""`, `"/"`, `"/a//b"`, `"/items/18446744073709551615"`, `"/a/-1"`, `"/a/01"`, `"/a~1b"`, `"/a~0b"`, `"/a~"`, `"a"`, `7`, `null`}
+	vals := []string{`1`, `"x"`, `{}`, `[]`, `null`, `{"a":1}`, `[1,2]`}
+	elem := func() string {
+		p, v := paths[c.Int(len(paths))], vals[c.Int(len(vals))]
+		switch c.Int(12) {
+		case 0:
+			return `{}`
+		case 1:
+			return `null`
+		case 2:
+			return `{"value":` + v + `}`
+		case 3:
+			return `{"op":"add"}`
+		case 4:
+			return `{"path":` + p + `}`
+		case 5:
+			return `{"op":` + []string{`"copy"`, `"move"`, `"replace"`, `7`, `null`}[c.Int(5)] + `,"path":` + p + `,"value":` + v + `}`
+		case 6, 7:
+			return `{"op":"add","path":` + p + `,"value":` + v + `}`
+		case 8:
+			return `{"op":"test","path":` + p + `,"value":` + v + `},{"op":"remove","path":` + p + `,"value":` + v + `}`
+		case 9:
+			return `{"op":"test","path":` + p + `,"value":` + v + `}`
+		case 10:
+			return `{"op":"remove","path":` + p + `}`
+		default:
+			return `{"op":"test","path":"/a/0","value":` + v + `},{"op":"test","path":"/a/2","value":` + v + `},{"op":"add","path":"/a/1","value":` + v + `}`
+		}
+	}
+	var parts []string
+	for i := 0; i < c.Range(1, 4); i++ {
+		parts = append(parts, elem())
+	}
+	return "[" + strings.Join(parts, ",") + "]"
 }
